@@ -66,6 +66,7 @@ type aConf struct {
 	PageLimit  int      `json:"pagelimit"`
 	Root       string   `json:"root"`      // sub-directory name under the case directory ("" = "root")
 	Cwd        bool     `json:"cwd"`       // run the case with the root directory as the working directory of the process
+	RootSpell  string   `json:"rootspell"` // how the root directory is written in the configuration: "" (clean), "slash" (<root>/), "dot" (<case>/./root), "double" (<case>//root), "dotdot" (<case>/x/../root)
 	TmpInCase  bool     `json:"tmpincase"` // TMPDIR of the process points to <case directory>/tmpdir (next to the root), which the case snapshots see
 }
 
@@ -464,6 +465,23 @@ func (e *aEnv) mkConf() config.Config {
 		cf.Storage.RootDir = e.rootDir()
 	default:
 		cf.Storage.StoreType = config.StoreMem
+	}
+	if cf.Storage.RootDir != "" {
+		// (filepath.Join cleans: the other spellings are put together by hand)
+		r := c.Root
+		if r == "" {
+			r = "root"
+		}
+		switch c.RootSpell {
+		case "slash":
+			cf.Storage.RootDir = cf.Storage.RootDir + "/"
+		case "dot":
+			cf.Storage.RootDir = e.dir + "/./" + r
+		case "double":
+			cf.Storage.RootDir = e.dir + "//" + r
+		case "dotdot":
+			cf.Storage.RootDir = e.dir + "/" + r + "/../" + r
+		}
 	}
 	cf.Storage.ReadOnly = bp(c.RO)
 	cf.API.PushEnabled = c.Push
